@@ -515,6 +515,14 @@ func (p *Prog) PanicSites(fns map[*ssa.Function]bool) ([]PanicSite, error) {
 							}
 						}
 					}
+					// library calls that panic on a negative count: slices.Grow(s, n), strings.Repeat / bytes.Repeat(s, n),
+					// (*strings.Builder).Grow(n), (*bytes.Buffer).Grow(n)
+					if idx := negativeCountArg(&x.Call); idx >= 0 && idx < len(x.Call.Args) {
+						sz := x.Call.Args[idx]
+						if _, isK := ConstInt(sz); !isK && !lenDerived(sz) {
+							add("size", x.Pos(), sizeGuard(p, x, sz))
+						}
+					}
 					if f := CalleeObj(&x.Call); f != nil && f.Pkg() != nil && f.Pkg().Path() == "math/rand" {
 						switch f.Name() {
 						case "Intn", "Int63n", "Int31n", "Perm":
@@ -530,6 +538,28 @@ func (p *Prog) PanicSites(fns map[*ssa.Function]bool) ([]PanicSite, error) {
 	}
 	sort.SliceStable(out, func(i, j int) bool { return out[i].Pos < out[j].Pos })
 	return out, nil
+}
+
+// negativeCountArg: the index (in Call.Args, receiver included) of the count argument of a standard-library call that
+// panics when the count is negative; -1 for other calls.
+func negativeCountArg(cc *ssa.CallCommon) int {
+	f := CalleeObj(cc)
+	if f == nil {
+		if sc := cc.StaticCallee(); sc != nil && sc.Origin() != nil {
+			f, _ = sc.Origin().Object().(*types.Func)
+		}
+	}
+	if f == nil || f.Pkg() == nil {
+		return -1
+	}
+	recv := RecvTypeName(f)
+	switch f.Pkg().Path() + "." + recv + "." + f.Name() {
+	case "slices..Grow", "golang.org/x/exp/slices..Grow", "strings..Repeat", "bytes..Repeat":
+		return 1
+	case "strings.Builder.Grow", "bytes.Buffer.Grow":
+		return 1
+	}
+	return -1
 }
 
 // typeOfCall: v is (only) the result of a reflect.TypeOf call; returns that call.
@@ -1824,6 +1854,25 @@ func sizeGuard(p *Prog, at ssa.Instruction, sz ssa.Value) string {
 	}
 	if !isTainted(sz) && paramNonNegAtCallers(p, sz) {
 		return "size is a parameter that every call site passes as a value proven >= 0"
+	}
+	// min(x, K): bounded above by the constant; non-negative when every argument is a constant >= 0 or known >= 0 here
+	if cl, ok := Strip(sz).(*ssa.Call); ok {
+		if bi, isB := cl.Call.Value.(*ssa.Builtin); isB && bi.Name() == "min" {
+			capped, nonNeg := false, true
+			for _, a := range cl.Call.Args {
+				if k, isK := ConstInt(a); isK {
+					capped = true
+					nonNeg = nonNeg && k >= 0
+					continue
+				}
+				if !provenNonNeg(a, CmpFactsAt(at), 0) {
+					nonNeg = false
+				}
+			}
+			if capped && nonNeg {
+				return "min(x, constant) with x known >= 0: bounded on both sides"
+			}
+		}
 	}
 	lo, hi := false, false
 	for _, f := range CmpFactsAt(at) {
